@@ -1,6 +1,5 @@
 import BpProofs.Gen.SrcMeta
 import BpProofs.SrcTieEnum
-import BpProofs.PyPreludeObj
 import BpModel.Ok
 /-
   THE TIE BETWEEN THE TRANSLATED CLASS METADATA AND THE LOOKUPS THE MODEL / THE OTHER PRELUDES USE.
@@ -187,6 +186,12 @@ theorem assoc_Lbf (k : Nat) : ∀ (fs : List FieldD) (i : Nat) (d : Dict Nat Nat
 
 /-! #### `oneof_field_by_group` -/
 
+/-- the members of group `g` among the fields `fs`, the first of which has index `j` (the same function as
+    `Py.membersFrom` of PyPreludeObj.lean, which this file does not import: `Props/C06SrcMeta.membersFrom_eq`) -/
+def membersFrom (g : Nat) : List FieldD → Nat → List (Nat × FieldD)
+  | [], _ => []
+  | f :: fs, j => if f.group == some g then (j, f) :: membersFrom g fs (j + 1) else membersFrom g fs (j + 1)
+
 theorem setAdd_new (s : List Field) (x : Field) (h : ∀ y ∈ s, y.1 < x.1) : setAdd s x = s ++ [x] := by
   unfold setAdd
   have : s.any (fun y => y.1 == x.1) = false := by
@@ -196,11 +201,11 @@ theorem setAdd_new (s : List Field) (x : Field) (h : ∀ y ∈ s, y.1 < x.1) : s
     simp; omega
   simp [this]
 
-theorem membersFrom_lt (g : Nat) : ∀ (fs : List FieldD) (i : Nat), ∀ y ∈ Py.membersFrom g fs i, i ≤ y.1
-  | [], _ => by simp [Py.membersFrom]
+theorem membersFrom_lt (g : Nat) : ∀ (fs : List FieldD) (i : Nat), ∀ y ∈ membersFrom g fs i, i ≤ y.1
+  | [], _ => by simp [membersFrom]
   | f :: fs, i => by
     intro y hy
-    unfold Py.membersFrom at hy
+    unfold membersFrom at hy
     split at hy
     · rcases List.mem_cons.mp hy with h | h
       · subst h; exact Nat.le_refl _
@@ -211,22 +216,22 @@ theorem membersFrom_lt (g : Nat) : ∀ (fs : List FieldD) (i : Nat), ∀ y ∈ P
 theorem assoc_Lbg (g : Nat) : ∀ (fs : List FieldD) (i : Nat) (d : Dict Nat (List Field)),
     (∀ s, assoc g d = some s → ∀ y ∈ s, y.1 < i) →
     assoc g (Lbg (enumFrom i fs) d) =
-      match Py.membersFrom g fs i with
+      match membersFrom g fs i with
       | [] => assoc g d
       | m :: ms => some ((assoc g d).getD [] ++ m :: ms)
-  | [], i, d, _ => by simp [enumFrom, Lbg, Py.membersFrom]
+  | [], i, d, _ => by simp [enumFrom, Lbg, membersFrom]
   | f :: fs, i, d, h => by
     simp only [enumFrom, Lbg]
     cases hg : f.group with
     | none =>
       have hne : (f.group == some g) = false := by simp [hg]
-      simp only [Py.membersFrom, hne]
+      simp only [membersFrom, hne]
       exact assoc_Lbg g fs (i + 1) d (fun s hs y hy => Nat.lt_succ_of_lt (h s hs y hy))
     | some g' =>
       simp only
       by_cases hgg : g' = g
       · subst hgg
-        have hm : Py.membersFrom g' (f :: fs) i = (i, f) :: Py.membersFrom g' fs (i + 1) := by simp [Py.membersFrom, hg]
+        have hm : membersFrom g' (f :: fs) i = (i, f) :: membersFrom g' fs (i + 1) := by simp [membersFrom, hg]
         have hnew : setAdd ((assoc g' d).getD []) (i, f) = (assoc g' d).getD [] ++ [(i, f)] := by
           apply setAdd_new
           intro y hy
@@ -243,11 +248,11 @@ theorem assoc_Lbg (g : Nat) : ∀ (fs : List FieldD) (i : Nat) (d : Dict Nat (Li
             | none => simp [hd] at hy
             | some s => rw [hd] at hy; exact Nat.lt_succ_of_lt (h s hd y hy)
           · simp at hy; subst hy; exact Nat.lt_succ_self _), hm, hd1]
-        cases Py.membersFrom g' fs (i + 1) <;> simp
+        cases membersFrom g' fs (i + 1) <;> simp
       · have hne : (f.group == some g) = false := by simp [hg, hgg]
         have hd1 : assoc g (dictSetdefaultAdd d g' (i, f)) = assoc g d := by
           rw [assoc_setdefaultAdd, if_neg (fun e => hgg e.symm)]
-        simp only [Py.membersFrom, hne]
+        simp only [membersFrom, hne]
         rw [assoc_Lbg g fs (i + 1) _ (by
           intro s hs y hy
           rw [hd1] at hs
@@ -360,9 +365,22 @@ theorem mem_keys_assoc {β : Type} (k : Nat) : ∀ (d : Dict Nat β), k ∈ d.ma
       apply mem_keys_assoc k d
       simpa [e] using h
 
-theorem sortedKeys_mem {β : Type} (d : Dict Nat β) (k : Nat) (h : k ∈ sortedKeys d) : (assoc k d).isSome := by
-  unfold sortedKeys at h
-  exact mem_keys_assoc k d ((List.mergeSort_perm _ _).mem_iff.mp h)
+theorem insertSorted_perm (a : Nat) : ∀ (l : List Nat), (insertSorted a l).Perm (a :: l)
+  | [] => List.Perm.refl _
+  | b :: l => by
+    unfold insertSorted
+    split
+    · exact List.Perm.refl _
+    · exact ((insertSorted_perm a l).cons b).trans (List.Perm.swap a b l)
+
+theorem sortedKeys_perm {β : Type} (d : Dict Nat β) : (sortedKeys d).Perm (d.map (·.1)) := by
+  unfold sortedKeys
+  induction d.map (·.1) with
+  | nil => exact List.Perm.refl _
+  | cons a l ih => exact (insertSorted_perm a _).trans (ih.cons a)
+
+theorem sortedKeys_mem {β : Type} (d : Dict Nat β) (k : Nat) (h : k ∈ sortedKeys d) : (assoc k d).isSome :=
+  mem_keys_assoc k d ((sortedKeys_perm d).mem_iff.mp h)
 
 /-! ### `_cls_for`, `_get_cls_by_field` -/
 
@@ -499,10 +517,10 @@ theorem init_eq (fs : List FieldD) : SrcMeta.ProtoClassMetadata.init fs = .ok (t
 /-! ### the lookups in `tables fs` -/
 
 theorem tables_group_by_field (fs : List FieldD) (k : Nat) :
-    assoc k (tables fs).oneof_group_by_field = Py.oneofGroupByField fs k := by
+    assoc k (tables fs).oneof_group_by_field = (fs[k]?).bind fun f => f.group := by
   show assoc k (Lbf (enumFrom 0 fs) []) = _
   rw [assoc_Lbf k fs 0 [] (by simp [assoc])]
-  simp [Py.oneofGroupByField]
+  simp
 
 theorem tables_name_by_number (fs : List FieldD) (n : Nat) :
     assoc n (tables fs).field_name_by_number = findField fs n := by
@@ -512,13 +530,12 @@ theorem tables_name_by_number (fs : List FieldD) (n : Nat) :
 
 theorem tables_field_by_group (fs : List FieldD) (g : Nat) :
     assoc g (tables fs).oneof_field_by_group =
-      match Py.oneofFieldByGroup fs g with
+      match membersFrom g fs 0 with
       | [] => none
       | m :: ms => some (m :: ms) := by
   show assoc g (Lbg (enumFrom 0 fs) []) = _
   rw [assoc_Lbg g fs 0 [] (by simp [assoc])]
-  unfold Py.oneofFieldByGroup
-  cases Py.membersFrom g fs 0 <;> simp [assoc]
+  cases membersFrom g fs 0 <;> simp [assoc]
 
 theorem tables_meta_by_field_name (fs : List FieldD) (k : Nat) :
     assoc k (tables fs).meta_by_field_name = fs[k]? := assoc_dataclassFields fs k
@@ -600,7 +617,7 @@ theorem tables_sorted_perm (fs : List FieldD) (h : numsDistinctB fs = true) :
     have : ((fun p : Nat × Nat => p.2) ∘ fun p : Field => (p.2.num, p.1)) = fun p : Field => p.1 := rfl
     rw [this, enumFrom_map_fst, List.range_eq_range']
   have hnd : (d.map (·.1)).Nodup := by rw [hkeys]; exact numsDistinct_nodup fs h
-  have hp : (sortedKeys d).Perm (d.map (·.1)) := List.mergeSort_perm _ _
+  have hp : (sortedKeys d).Perm (d.map (·.1)) := sortedKeys_perm d
   exact ((hp.filterMap _).trans (by rw [filterMap_assoc_keys d hnd, hvals]))
 
 end Bp.SrcTieMeta
